@@ -55,6 +55,13 @@ func loginFor(cls, user string) *envx.Login {
 		l.ExpiredBy = 3 * time.Second
 	case "nousername":
 		l.Claims = map[string]interface{}{"email": "x@example.org"}
+	case "manyclaims":
+		// every claim a user name may be taken from is present, with a different value each; the user name is the one of
+		// the first claim in the documented order (preferred_username, unique_name, upn, username)
+		l.Claims = map[string]interface{}{"preferred_username": user, "unique_name": "un-" + user, "upn": "upn-" + user, "username": "administrator", "email": "x@example.org"}
+	case "laterclaims":
+		// (the first two are absent here: the user name is the upn claim)
+		l.Claims = map[string]interface{}{"upn": user, "username": "administrator", "email": "x@example.org", "name": "Somebody Else"}
 	}
 	return l
 }
